@@ -287,8 +287,24 @@ def rule_R13_5(ctx):
     return r
 
 
+def rule_R13_6(ctx):
+    import c05
+    r = c05.rule_R05_3(ctx)
+    r.rule = "R13.6"
+    r.title = ("a collected rest (`..rest` in a pattern or parameter list) and a "
+               "spread result are fresh containers: every list/object value is "
+               "built around a newly allocated cell")
+    r.necessary_for = ("a rest that aliases the source list lets a write through "
+                       "`rest` change the caller's list")
+    for v in r.violations:
+        v.rule = "R13.6"
+        v.key = v.key.replace("R05.3", "R13.6", 1)
+    return r
+
+
 def run(ctx):
-    return [rule_R13_1(ctx), rule_R13_2(ctx), rule_R13_3(ctx), rule_R13_4(ctx), rule_R13_5(ctx)]
+    return [rule_R13_1(ctx), rule_R13_2(ctx), rule_R13_3(ctx), rule_R13_4(ctx), rule_R13_5(ctx),
+            rule_R13_6(ctx)]
 
 
 META = {
